@@ -53,7 +53,6 @@ func init() {
 	reg("strings.TrimRight", func(a []value) value { return strings.TrimRight(s(a[0]), s(a[1])) })
 	reg("strings.Trim", func(a []value) value { return strings.Trim(s(a[0]), s(a[1])) })
 	reg("strings.Fields", func(a []value) value { return strSlice(strings.Fields(s(a[0]))) })
-	reg("strings.EqualFold", func(a []value) value { return strings.EqualFold(s(a[0]), s(a[1])) })
 	reg("strings.IndexAny", func(a []value) value { return int64(strings.IndexAny(s(a[0]), s(a[1]))) })
 	reg("strings.ContainsAny", func(a []value) value { return strings.ContainsAny(s(a[0]), s(a[1])) })
 	reg("strings.Replace", func(a []value) value { return strings.Replace(s(a[0]), s(a[1]), s(a[2]), int(i(a[3]))) })
@@ -384,4 +383,54 @@ func iDecodeRuneInString(m *machine, fr *frame, args []value) value {
 
 func init() {
 	intrinsics["unicode/utf8.DecodeRuneInString"] = iDecodeRuneInString
+}
+
+// strings.EqualFold with one concrete ASCII operand: the other operand matches
+// exactly when it is, character by character, one of the members of the simple
+// case-folding orbit (k: k K and the Kelvin sign; s: s S and the long s).
+func iEqualFold(m *machine, fr *frame, args []value) value {
+	a, ac := strArg(args[0])
+	b, bc := strArg(args[1])
+	if ac && bc {
+		return strings.EqualFold(a.S, b.S)
+	}
+	sym, con := a, b
+	if ac {
+		sym, con = b, a
+	}
+	if con.Op != "cs" {
+		panic(cut{"strings.EqualFold of two symbolic strings is not modelled"})
+	}
+	var parts []*Term
+	for i := 0; i < len(con.S); i++ {
+		c := con.S[i]
+		if c >= 0x80 {
+			panic(cut{"strings.EqualFold with a non-ASCII constant is not modelled"})
+		}
+		lo, up := c, c
+		if c >= 'a' && c <= 'z' {
+			up = c - 32
+		} else if c >= 'A' && c <= 'Z' {
+			lo = c + 32
+		}
+		alts := []*Term{reLit(string([]byte{lo}))}
+		if up != lo {
+			alts = append(alts, reLit(string([]byte{up})))
+		}
+		switch lo {
+		case 'k':
+			alts = append(alts, reLit("\u212a"))
+		case 's':
+			alts = append(alts, reLit("\u017f"))
+		}
+		parts = append(parts, reUnion(alts...))
+	}
+	if len(parts) == 0 {
+		return fromTerm(mkStrEq(sym, mkStr("")))
+	}
+	return fromTerm(mkInRe(sym, reConcat(parts...)))
+}
+
+func init() {
+	intrinsics["strings.EqualFold"] = iEqualFold
 }
